@@ -21,9 +21,12 @@
    read.  Maps and arrays share the id space but a Go program can never use one
    as the other; the theorems hold for every descriptor anyway.
 
-   Computations are  M A := mem -> option (A * mem) ; [None] is a Go run-time
-   panic (index out of range, explicit panic) or, for the fuel-driven loops,
-   exhausted fuel.  Definitions only; the lemmas are in C16_Proofs.v. *)
+   Computations are  M A := mem -> option A * mem ; the answer [None] is a Go
+   run-time panic (index out of range, explicit panic) or, for the fuel-driven
+   loops, exhausted fuel.  The memory is kept in BOTH cases: what a call has
+   written before it panics stays written, exactly as in Go, so the theorems
+   can speak about the arguments after a call that failed.  Definitions only;
+   the lemmas are in C16_Proofs.v. *)
 
 From Gogu Require Import Base C14_Model.
 Local Open Scope nat_scope.
@@ -62,11 +65,11 @@ Definition valid (m : mem) (s : slice) : Prop :=
 
 (* ---------- the monad ---------- *)
 
-Definition M (A : Type) := mem -> option (A * mem).
-Definition ret {A} (a : A) : M A := fun m => Some (a, m).
-Definition fail {A} : M A := fun _ => None.
+Definition M (A : Type) := mem -> option A * mem.
+Definition ret {A} (a : A) : M A := fun m => (Some a, m).
+Definition fail {A} : M A := fun m => (None, m).
 Definition bind {A B} (c : M A) (k : A -> M B) : M B :=
-  fun m => match c m with Some (a, m') => k a m' | None => None end.
+  fun m => match c m with (Some a, m') => k a m' | (None, m') => (None, m') end.
 
 Declare Scope mem_scope.
 Delimit Scope mem_scope with mem.
@@ -107,7 +110,7 @@ Definition big_fuel : positive := 1099511627776.   (* 2^40 *)
 (* ---------- primitives ---------- *)
 
 (* a new array *)
-Definition alloc (a : list Z) : M nat := fun m => Some (length m, m ++ [a]).
+Definition alloc (a : list Z) : M nat := fun m => (Some (length m), m ++ [a]).
 
 (* make([]T, len, cap) *)
 Definition make_slice (len cap : nat) : M slice :=
@@ -115,11 +118,11 @@ Definition make_slice (len cap : nat) : M slice :=
 
 (* s[i] *)
 Definition rd (s : slice) (i : nat) : M Z := fun m =>
-  if i <? s_len s then Some (cell m (s_arr s) (s_off s + i), m) else None.
+  if i <? s_len s then (Some (cell m (s_arr s) (s_off s + i)), m) else (None, m).
 
 (* s[i] = v *)
 Definition wr (s : slice) (i : nat) (v : Z) : M unit := fun m =>
-  if i <? s_len s then Some (tt, write_cell m (s_arr s) (s_off s + i) v) else None.
+  if i <? s_len s then (Some tt, write_cell m (s_arr s) (s_off s + i) v) else (None, m).
 
 (* s[lo:hi] *)
 Definition reslice (s : slice) (lo hi : nat) : M slice :=
@@ -128,7 +131,7 @@ Definition reslice (s : slice) (lo hi : nat) : M slice :=
   else fail.
 
 (* the values of a slice, as `t...` hands them to append / copy *)
-Definition values (s : slice) : M (list Z) := fun m => Some (read_all m s, m).
+Definition values (s : slice) : M (list Z) := fun m => (Some (read_all m s), m).
 
 Section Growth.
   (* spare capacity left by a reallocating append: (old cap) (needed len) -> extra *)
@@ -138,17 +141,17 @@ Section Growth.
   Definition append (s : slice) (vs : list Z) : M slice := fun m =>
     let need := s_len s + length vs in
     if need <=? s_cap s
-    then Some (mkSlice (s_arr s) (s_off s) need (s_cap s),
+    then (Some (mkSlice (s_arr s) (s_off s) need (s_cap s)),
                write_from m (s_arr s) (s_off s + s_len s) vs)
     else
       let extra := slack (s_cap s) need in
-      Some (mkSlice (length m) 0 need (need + extra),
+      (Some (mkSlice (length m) 0 need (need + extra)),
             m ++ [read_all m s ++ vs ++ repeat 0%Z extra]).
 End Growth.
 
 (* copy(dst, vs...) : min(len dst, len vs) elements *)
 Definition copy_go (dst : slice) (vs : list Z) : M unit := fun m =>
-  Some (tt, write_from m (s_arr dst) (s_off dst) (firstn (s_len dst) vs)).
+  (Some tt, write_from m (s_arr dst) (s_off dst) (firstn (s_len dst) vs)).
 
 (* swap(data, i, j)  /  s[i], s[j] = s[j], s[i] *)
 Definition swap (s : slice) (i j : nat) : M unit :=
@@ -173,13 +176,13 @@ Definition make_map : M nat := alloc [].
 Definition lit_map (a : amap) : M nat := alloc (kvflat a).
 (* for k, v := range m — the entries when the loop starts (the helpers only ever
    delete the entry they are looking at, or write the entry they have just read) *)
-Definition m_entries (id : nat) : M amap := fun m => Some (map_of m id, m).
+Definition m_entries (id : nat) : M amap := fun m => (Some (map_of m id), m).
 (* v, ok := m[k] *)
-Definition m_lookup (id : nat) (k : Z) : M (option Z) := fun m => Some (lookup (map_of m id) k, m).
+Definition m_lookup (id : nat) (k : Z) : M (option Z) := fun m => (Some (lookup (map_of m id) k), m).
 (* m[k] = v *)
-Definition m_store (id : nat) (k v : Z) : M unit := fun m => Some (tt, put_map m id (map_set (map_of m id) k v)).
+Definition m_store (id : nat) (k v : Z) : M unit := fun m => (Some tt, put_map m id (map_set (map_of m id) k v)).
 (* delete(m, k) *)
-Definition m_delete (id : nat) (k : Z) : M unit := fun m => Some (tt, put_map m id (map_delete (map_of m id) k)).
+Definition m_delete (id : nat) (k : Z) : M unit := fun m => (Some tt, put_map m id (map_delete (map_of m id) k)).
 
 (* the Go runtime's policy for small slices, used by the executable instance *)
 Definition go_slack (oldcap need : nat) : nat := Nat.max need (2 * oldcap) - need.
